@@ -245,3 +245,132 @@ Proof.
   - exact I.
 Qed.
 
+
+(* ---------------------------------------------------------------------------------------------- *)
+(* INTEGER and DECIMAL *)
+
+Definition dot_digit (rest : text) : bool :=
+  match rest with 46 :: d :: _ => is_digit d | _ => false end.
+
+Lemma span_digits : forall n rest, forallb is_digit n = true -> next_not is_digit rest = true ->
+  span_len is_digit (n ++ rest) = length n.
+Proof.
+  induction n as [|c n IH]; intros rest Hn Hr.
+  - cbn [app length]. destruct rest as [|d r]; [reflexivity|]. cbn [span_len next_not] in *.
+    apply negb_true_iff in Hr. rewrite Hr. reflexivity.
+  - cbn [forallb] in Hn. apply andb_prop in Hn. destruct Hn as [H1 H2]. cbn [app span_len length]. rewrite H1, IH by assumption. reflexivity.
+Qed.
+
+(* every case-insensitive word of the grammar starts with a lower-case ASCII letter *)
+Lemma kw_first_letter : forallb (fun s => match s with a :: _ => (97 <=? a) && (a <=? 122) | [] => false end) kw_words = true.
+Proof. vm_compute. reflexivity. Qed.
+
+Lemma ci_first_digit k s c : In (k, SCi s) lexer_rules -> is_digit c = true -> first_ok (SCi s) c = false.
+Proof.
+  intros Hin Hc.
+  assert (Hw : In s kw_words).
+  { unfold kw_words. apply in_flat_map. exists (k, SCi s). split; [exact Hin|left; reflexivity]. }
+  pose proof kw_first_letter as Hl. rewrite forallb_forall in Hl. specialize (Hl _ Hw).
+  destruct s as [|a s']; [discriminate|]. cbn [first_ok]. unfold is_digit in Hc. lia.
+Qed.
+
+Definition integer_index : nat := 20.
+Definition decimal_index : nat := 21.
+
+Lemma rules_split_integer :
+  lexer_rules = firstn integer_index lexer_rules ++ (INTEGER, SDigits) :: skipn (S integer_index) lexer_rules.
+Proof. reflexivity. Qed.
+
+Lemma rules_split_decimal :
+  lexer_rules = firstn decimal_index lexer_rules ++ (DECIMAL, SDecimal) :: skipn (S decimal_index) lexer_rules.
+Proof. reflexivity. Qed.
+
+Lemma before_integer_shapes :
+  forallb (fun r => match snd r with SLit _ | SText => true | _ => false end) (firstn integer_index lexer_rules) = true.
+Proof. vm_compute. reflexivity. Qed.
+
+Lemma after_decimal_shapes :
+  forallb (fun r => match snd r with SCi _ | SName | SWs _ | SAny => true | _ => false end) (skipn (S decimal_index) lexer_rules) = true.
+Proof. vm_compute. reflexivity. Qed.
+
+(* the rules after DECIMAL match at most one character of a text that starts with a digit *)
+Lemma after_decimal_short c x r : In r (skipn (S decimal_index) lexer_rules) -> is_digit c = true ->
+  (mlen (snd r) (c :: x) <= 1)%nat.
+Proof.
+  intros Hin Hc. destruct r as [k sh]. cbn [snd].
+  pose proof after_decimal_shapes as Ha. rewrite forallb_forall in Ha. specialize (Ha _ Hin). cbn [snd] in Ha.
+  apply in_skipn in Hin.
+  pose proof (special_first_other (k, sh) c Hin (or_intror Hc)) as Hsp. cbn [snd] in Hsp.
+  destruct sh as [s|s| | | | |cs|]; try discriminate.
+  - rewrite (mlen_first _ _ _ (ci_first_digit _ _ _ Hin Hc)). lia.
+  - rewrite (mlen_first SName c x (digit_not_name_start _ Hc)). lia.
+  - rewrite (mlen_first _ _ _ Hsp). lia.
+  - unfold mlen. cbn. lia.
+Qed.
+
+Lemma before_integer_zero c x r : In r (firstn integer_index lexer_rules) -> is_digit c = true ->
+  mlen (snd r) (c :: x) = O.
+Proof.
+  intros Hin Hc. destruct r as [k sh]. cbn [snd].
+  pose proof before_integer_shapes as Hb. rewrite forallb_forall in Hb. specialize (Hb _ Hin). cbn [snd] in Hb.
+  apply in_firstn in Hin.
+  pose proof (special_first_other (k, sh) c Hin (or_intror Hc)) as Hsp. cbn [snd] in Hsp.
+  destruct sh as [s|s| | | | |cs|]; try discriminate; apply mlen_first; exact Hsp.
+Qed.
+
+(* a run of digits followed by neither a digit nor ".digit" is one INTEGER token *)
+Theorem lex_one_integer n rest : all_digits n = true -> next_not is_digit rest = true -> dot_digit rest = false ->
+  lex_one (n ++ rest) = Some (INTEGER, false, n, rest).
+Proof.
+  intros Hn Hr Hd. unfold all_digits in Hn. apply andb_prop in Hn. destruct Hn as [Hn Hne].
+  destruct n as [|c n']; [discriminate|]. cbn [forallb] in Hn. apply andb_prop in Hn. destruct Hn as [Hc Hn'].
+  assert (Hsp : span_len is_digit ((c :: n') ++ rest) = S (length n')).
+  { rewrite span_digits; [reflexivity| |exact Hr]. cbn [forallb]. rewrite Hc, Hn'. reflexivity. }
+  assert (Hm : match_shape SDigits ((c :: n') ++ rest) = Some (S (length n'))).
+  { cbn [match_shape]. unfold m_digits. rewrite Hsp. reflexivity. }
+  unfold lex_one, lex_one_with. rewrite rules_split_integer.
+  rewrite (best_rule_pick _ INTEGER SDigits _ _ (length n') None Hm).
+  - cbn [is_skip]. change (S (length n')) with (length (c :: n')). rewrite firstn_app_exact, skipn_app_exact. reflexivity.
+  - apply Forall_forall. intros r Hin. cbn [app]. rewrite (before_integer_zero c _ r Hin Hc). lia.
+  - (* DECIMAL does not match; the others at most one character *)
+    change (skipn (S integer_index) lexer_rules) with ((DECIMAL, SDecimal) :: skipn (S decimal_index) lexer_rules).
+    constructor.
+    + cbn [snd]. unfold mlen. cbn [match_shape]. unfold m_decimal. rewrite Hsp.
+      change (S (length n')) with (length (c :: n')). rewrite skipn_app_exact.
+      destruct rest as [|d [|e r]]; try (cbn; lia).
+      * destruct (d =? 46); cbn; lia.
+      * destruct (N.eqb_spec d 46) as [->|]; [|cbn; lia]. cbn [dot_digit] in Hd. cbn [span_len]. rewrite Hd. cbn. lia.
+    + apply Forall_forall. intros r Hin. cbn [app]. pose proof (after_decimal_short c (n' ++ rest) r Hin Hc). lia.
+  - exact I.
+Qed.
+
+(* digits '.' digits followed by no digit is one DECIMAL token *)
+Theorem lex_one_decimal ip fp rest : all_digits ip = true -> all_digits fp = true -> next_not is_digit rest = true ->
+  lex_one ((ip ++ 46 :: fp) ++ rest) = Some (DECIMAL, false, ip ++ 46 :: fp, rest).
+Proof.
+  intros Hi Hf Hr. unfold all_digits in Hi, Hf. apply andb_prop in Hi. destruct Hi as [Hi Hine].
+  apply andb_prop in Hf. destruct Hf as [Hf Hfne].
+  destruct ip as [|c ip']; [discriminate|]. destruct fp as [|f0 fp']; [discriminate|].
+  pose proof Hi as Hi0. cbn [forallb] in Hi. apply andb_prop in Hi. destruct Hi as [Hc Hip'].
+  set (n := (c :: ip') ++ 46 :: f0 :: fp').
+  assert (Hlen : length n = S (length ip' + S (S (length fp')))).
+  { unfold n. rewrite app_length. cbn [length]. lia. }
+  assert (Hsp1 : span_len is_digit (n ++ rest) = length (c :: ip')).
+  { unfold n. rewrite <- app_assoc. apply span_digits; [exact Hi0|reflexivity]. }
+  assert (Hm : match_shape SDecimal (n ++ rest) = Some (S (length ip' + S (S (length fp'))))).
+  { cbn [match_shape]. unfold m_decimal. rewrite Hsp1. cbn [length].
+    unfold n. rewrite <- app_assoc. change (S (length ip')) with (length (c :: ip')). rewrite skipn_app_exact.
+    cbn [app]. change (46 =? 46) with true. cbv iota.
+    rewrite (span_digits (f0 :: fp') rest Hf Hr). cbn [length]. f_equal. lia. }
+  unfold lex_one, lex_one_with. rewrite rules_split_decimal.
+  rewrite (best_rule_pick _ DECIMAL SDecimal _ _ _ None Hm).
+  - cbn [is_skip]. rewrite <- Hlen, firstn_app_exact, skipn_app_exact. reflexivity.
+  - (* the fixed-text rules do not match; INTEGER matches only the integer part *)
+    change (firstn decimal_index lexer_rules) with (firstn integer_index lexer_rules ++ [(INTEGER, SDigits)]).
+    apply Forall_app. split.
+    + apply Forall_forall. intros r Hin. unfold n. cbn [app]. rewrite (before_integer_zero c _ r Hin Hc). lia.
+    + constructor; [|constructor]. cbn [snd]. unfold mlen. cbn [match_shape]. unfold m_digits. rewrite Hsp1. cbn [length]. lia.
+  - apply Forall_forall. intros r Hin. unfold n. cbn [app]. pose proof (after_decimal_short c (ip' ++ 46 :: f0 :: fp' ++ rest) r Hin Hc) as H.
+    rewrite <- app_assoc. cbn [app] in *. lia.
+  - exact I.
+Qed.
